@@ -93,7 +93,11 @@ pub fn build_setup(rng: &mut Rng, world: &World, tier: Tier) -> Option<Setup> {
     let mut prev_txs = vec![];
     // hostile transaction shapes: version 1 (BIP-68 off: older() cannot be met whatever the
     // sequence says) and final sequences (nLockTime off: after() cannot be met)
-    let version = if rng.chance(1, 4) { 1 } else { 2 };
+    let version = match rng.below(8) {
+        0 | 1 => 1,
+        2 => 3,
+        _ => 2,
+    };
     let final_seq = rng.chance(1, 12);
     for (i, ip) in inputs.iter().enumerate() {
         let (_, o) = ip.case.timelocks();
